@@ -89,6 +89,18 @@ def py_stable(p):
     return py_canon(py_canon(p)) == py_canon(p)
 
 PSEGS = ["cam", "in", "a", "b", "ab", "x1", "live"]
+# segments a URL parser would treat specially: a stream path is not a URL, they are ordinary characters of it
+# (the front ends hand over the *decoded* URL path: .../door%232 arrives as "/cams/door#2")
+SPECIAL = ["door#2", "yard?sub", "gate%31", "a%2fb", "p+q", "s;t", "u@v", "w:1", "#t", "n?"]
+
+def pseg(rng):
+    return rng.choice(SPECIAL) if rng.random() < 0.3 else rng.choice(PSEGS)
+
+def one_hash(p):
+    """at most one '#' per path (a second one would be escaped in the fragment of the URL the pull client prints,
+    a spelling difference that is not an observable)"""
+    i = p.find("#")
+    return p if i < 0 else p[:i + 1] + p[i + 1:].replace("#", "-")
 
 def respell(rng, cp):
     """another spelling of the canonical path cp (same CanonicalPath, checked)"""
@@ -149,13 +161,13 @@ def gen_publish_case(rng, nops):
 
     def fresh_pattern():
         n = rng.choice([1, 1, 2, 2, 3])
-        p = "/" + "/".join(rng.choice(PSEGS) for _ in range(n))
+        p = "/" + "/".join(pseg(rng) for _ in range(n))
         if routes and rng.random() < 0.5:           # nest under / shadow an existing pattern
             base = rng.choice(routes)
-            p = (base if base.endswith("/") else base + "/") + rng.choice(PSEGS)
+            p = (base if base.endswith("/") else base + "/") + pseg(rng)
         if rng.random() < 0.65:
             p += "/"
-        return p
+        return one_hash(p)
 
     def target():
         """a canonical stream path worth asking for"""
@@ -163,11 +175,14 @@ def gen_publish_case(rng, nops):
         if routes and r < 0.6:
             base = rng.choice(routes)
             if base.endswith("/"):
-                return base + rng.choice(["a", "b", "in/x1", "live", "cam/a/b", "ab"])
+                return one_hash(base + rng.choice(["a", "b", "in/x1", "live", "cam/a/b", "ab"] + SPECIAL + ["door", "gate1", "yard"]))
             return base
         if paths and r < 0.85:
-            return rng.choice(paths)
-        return "/" + "/".join(rng.choice(PSEGS) for _ in range(rng.choice([1, 2, 3])))
+            cp = rng.choice(paths)
+            if rng.random() < 0.25 and "#" not in cp and not cp.endswith("/"):
+                return cp + rng.choice(["#2", "?sub", "%31"])      # next to a live path, differing only in what a URL parser drops
+            return cp
+        return one_hash("/" + "/".join(pseg(rng) for _ in range(rng.choice([1, 2, 3]))))
 
     for _ in range(nops):
         r = rng.random()
@@ -201,8 +216,6 @@ def publish_nontrivial(c):
     return any(o[0] == 0 for o in c[1]) and any(o[0] == 4 and py_canon(o[1]) != o[1] for o in c[1])
 
 def publish_sig(c, e, o):
-    if any(op[0] == 4 and py_canon_once(py_canon_once(op[1])) != py_canon_once(op[1]) for op in c[1]):
-        return "publish-request-canon-unstable"      # fixed in /repo (1c2de2b); a reappearance is reported under this name
     return "publish-history"
 
 def unstable_witnesses(rng):
@@ -233,16 +246,23 @@ def run(ck):
     ck.stream("publish", pcases, "C17_publish_run", "C17_publish", "C17_publish_ok",
               nontrivial=publish_nontrivial, sig=publish_sig)
     ck.stream("publish_canon_regression", unstable_witnesses(rng), "C17_publish_run", "C17_publish", "C17_publish_ok",
-              nontrivial=lambda c: True, sig=publish_sig)
+              nontrivial=lambda c: True,
+              sig=lambda c, e, o: "publish-request-canon-unstable")   # fixed in /repo (1c2de2b); a reappearance is reported under this name
     # the string model against Go directly
     alpha = "aB/. "
+    alpha2 = "aB/. ?#%3+;@:"          # characters a URL parser treats specially are ordinary in a stream path
     strs = []
     if ck.thorough:
         import itertools
         for L in range(0, 8):
             strs += ["".join(t) for t in itertools.product(alpha, repeat=L)]
+        for L in range(1, 5):
+            strs += ["".join(t) for t in itertools.product(alpha2, repeat=L)]
+        strs += ["".join(rng.choice(alpha2) for _ in range(rng.randint(5, 12))) for _ in range(20000)]
     else:
-        strs = ["".join(rng.choice(alpha) for _ in range(rng.randint(0, 9))) for _ in range(4000)]
+        strs = ["".join(rng.choice(alpha) for _ in range(rng.randint(0, 9))) for _ in range(2500)]
+        strs += ["".join(rng.choice(alpha2) for _ in range(rng.randint(0, 10))) for _ in range(1500)]
+        strs += [respell(rng, one_hash("/" + "/".join(pseg(rng) for _ in range(rng.randint(1, 3))))) for _ in range(500)]
     ck.stream("canonical_path", strs, "C17_canon", "strgo_canon", None, nontrivial=lambda s: "/" in s,
               sig=lambda c, e, o: "canonical-path", sample=2)
     return ck.finish(
@@ -253,9 +273,11 @@ def run(ck):
              "media package with a per-case list (random subset and order) of pull factories: recording fakes with overlapping Can "
              "prefixes and failing hosts, and the real RTSP factory against a loopback fake camera (DESCRIBE URL observed); "
              "requests are respellings (upper case, no leading '/', '//', '/./', '/x/../', blanks, trailing '/') of route patterns + "
-             "remainders and of live stream paths, often asked twice in two spellings; non-trivial = a route and a non-canonically spelt request; "
+             "remainders and of live stream paths, often asked twice in two spellings; patterns and requests contain segments with "
+             "'?', '#', '%31', '%2f', '+', ';', '@', ':' and paths that differ from a live path only in what a URL parser drops; "
+             "after every request the whole registry (exact keys, stream ids) is compared; non-trivial = a route and a non-canonically spelt request; "
              "publish_canon_regression: the repaired defect (one-pass CanonicalPath) replayed; "
-             "plus CanonicalPath vs the Gallina model on strings over {a,B,/,.,space}",
+             "plus CanonicalPath vs the Gallina model on strings over {a,B,/,.,space} and over {a,B,/,.,space,?,#,%,3,+,;,@,:}",
         trusted=["url.Parse is an oracle (generator emits only URLs it accepts); route URL non-empty (guard op_wf)",
                  "whether a factory's Create succeeds is external (f_ok): the loopback fake camera cam.test answers, dead.test refuses; "
                  "symbolic hosts are mapped to loopback addresses by the harness",
